@@ -12,10 +12,21 @@
      final    per thread the opcode it is parked at (0 = finished); endcode
               0 = all finished, 1 = deadlock, 2 = step bound.
    CProcs: free-running OS processes with an O_EXCL marker file inside the
-     critical section (assumption validation, not replayable by a model).      *)
+     critical section (assumption validation, not replayable by a model).
+   CLine: the same gated threads, but EVERY source line of aiuti/filelock.py (and the
+     construction of a threading.Lock/RLock) is a gate, so a thread can be preempted
+     between any two statements.  Line-level decisions do not line up with the model's
+     one-step-per-primitive granularity, so these runs are judged by the monitor
+     (occupancy log as in CSched, plus the end-of-run observation: when every thread
+     finished and, by the log, nobody is inside, every object reports is_locked = False
+     and a fresh non-blocking acquire by a probe succeeds); [agree] compares only
+     schedule-independent facts with the model's semantics: each reported result is one
+     the call can have (an untimed blocking acquire can only return True, a release
+     None, a failing acquire its flavour's failure value), along the program with its
+     skip structure.                                                            *)
 From Coq Require Import List Arith Bool NArith.
 Import ListNotations.
-Require Import Aiuti.CaseLib Aiuti.FLock.
+Require Import Aiuti.CaseLib Aiuti.FLock Aiuti.FLockContract.
 
 Definition occ_entry := (nat * bool * nat * bool)%type.
 
@@ -23,7 +34,10 @@ Inductive case :=
 | CSched (cfg : list (bool * tmo)) (fl : list (skind * nat * bool)) (progs : list (list call))
          (trace : list (ev * nat)) (results : list (list result)) (occ : list occ_entry)
          (final : list nat) (endcode : nat) (kernel_mismatches : nat)
-| CProcs (nproc rounds : nat) (completed collisions errors : nat).
+| CProcs (nproc rounds : nat) (completed collisions errors : nat)
+| CLine (cfg : list (bool * tmo)) (progs : list (list call)) (results : list (list result))
+        (occ : list occ_entry) (endcode : nat) (locked_end : list bool) (probe : bool)
+        (kernel_mismatches : nat).
 
 Definition result_code (r : result) : nat :=
   match r with RTrue => 0 | RFalse => 1 | RTimeout => 2 | ROSErr => 3 | RNone => 4
@@ -79,6 +93,37 @@ Definition model_trace (c : case)
   | _ => (true, @nil (list result), @nil occ_entry, @nil nat, 0, false)
   end.
 
+(* schedule-independent: the results a thread reported are results its calls can have
+   (no scripted faults in line-level runs) *)
+Definition res_possible (cfg : list (bool * tmo)) (c : call) (r : result) : bool :=
+  match c with
+  | CAcq o m blk tm _ _ =>
+      let '(b', tm') := normalise (obj0 0 false (snd (nth o cfg (false, TNeg)))) blk tm in
+      result_eqb r RTrue ||
+      (negb (b' && match tm' with TVal _ => false | _ => true end) && result_eqb r (fail_result m))
+  | CRel _ _ => result_eqb r RNone
+  end.
+
+Fixpoint walk (fuel : nat) (cfg : list (bool * tmo)) (prog : list call) (rs : list result) : bool :=
+  match fuel with
+  | 0 => false
+  | S f =>
+      match prog, rs with
+      | _, [] => true                         (* the thread did not get further *)
+      | [], _ :: _ => false
+      | c :: rest, r :: rs' =>
+          res_possible cfg c r &&
+          walk f cfg (match c with CAcq _ _ _ _ _ k => if is_fail r then skipn k rest else rest | _ => rest end) rs'
+      end
+  end.
+
+Fixpoint walks (cfg : list (bool * tmo)) (progs : list (list call)) (results : list (list result)) : bool :=
+  match progs, results with
+  | [], [] => true
+  | p :: ps, r :: rs => walk (S (length p)) cfg p r && walks cfg ps rs
+  | _, _ => false
+  end.
+
 Definition agree (c : case) : bool :=
   match c with
   | CSched cfg fl progs trace results occ final endcode km =>
@@ -87,6 +132,8 @@ Definition agree (c : case) : bool :=
       && list_eqb Nat.eqb fin final && Nat.eqb ec endcode && Nat.eqb km 0
   | CProcs np r completed collisions errors =>
       Nat.eqb completed (np * r) && Nat.eqb collisions 0 && Nat.eqb errors 0
+  | CLine cfg progs results occ endcode locked_end probe km =>
+      walks cfg progs results && Nat.eqb (length locked_end) (length cfg) && Nat.eqb km 0
   end.
 
 (* monitor: never two inside; whoever is inside holds the lock when it enters
@@ -118,12 +165,24 @@ Fixpoint occ_consistent (cur : list nat) (occ : list occ_entry) : bool :=
 
 Definition occ_ok (occ : list occ_entry) : bool := forallb entry_ok occ && occ_consistent [] occ.
 
+(* the static form of the contract (FLockContract.prog_okb) on every program *)
+Definition progs_ok (progs : list (list call)) : bool :=
+  forallb (fun p => prog_okb (S (length p)) [] p) progs.
+
+(* all threads finished and, by the log, nobody is inside: nothing may be left behind *)
+Definition quiet_end (occ : list occ_entry) (endcode : nat) : bool :=
+  Nat.eqb endcode 0 && match fold_left occ_next occ [] with [] => true | _ => false end.
+
 Definition ok (c : case) : bool :=
   match c with
   | CSched _ _ _ _ _ occ _ _ km =>
       let '(_, _, _, _, _, vi) := model_trace c in
       (vi || occ_ok occ) && Nat.eqb km 0
   | CProcs _ _ _ collisions _ => Nat.eqb collisions 0
+  | CLine _ progs _ occ endcode locked_end probe km =>
+      (negb (progs_ok progs)
+       || (occ_ok occ && (negb (quiet_end occ endcode) || (forallb negb locked_end && probe))))
+      && Nat.eqb km 0
   end.
 
 Definition nontrivial (c : case) : bool :=
@@ -133,6 +192,10 @@ Definition nontrivial (c : case) : bool :=
       (2 <=? length (nodup Nat.eq_dec (map (fun x : occ_entry => match x with (t, _, _, _) => t end)
                                            (filter (fun x : occ_entry => match x with (_, e, _, _) => e end) occ))))
   | CProcs np r completed _ _ => (2 <=? np) && (np * r <=? completed)
+  | CLine _ progs _ occ endcode _ _ _ =>
+      (2 <=? length progs) && quiet_end occ endcode &&
+      (2 <=? length (nodup Nat.eq_dec (map (fun x : occ_entry => match x with (t, _, _, _) => t end)
+                                           (filter (fun x : occ_entry => match x with (_, e, _, _) => e end) occ))))
   end.
 
 Definition verdict := verdict3 agree ok nontrivial.
